@@ -61,7 +61,9 @@ def suite_units(ctx):
             vals = pgncorr.boundary_raws(f, rnd)
             if rr:
                 full = ctx["tier"] != "quick" and n <= 16 and key not in done
-                vals += list(range(max(rr[0], -(1 << 15)), min(rr[1], 1 << 16))) if full else [rnd.randint(rr[0], rr[1]) for _ in range(6)]
+                lo, hi = max(rr[0], -(1 << 15)), min(rr[1], 1 << 16)
+                # every raw value of fields up to 12 bits; every 16th (plus the ends) of 16-bit fields: the rational model is slow
+                vals += (list(range(lo, hi)) if n <= 12 else list(range(lo, hi, 16)) + [hi - 1]) if full else [rnd.randint(rr[0], rr[1]) for _ in range(6)]
             done.add(key)
             pls += [(base & ~(((1 << n) - 1) << o)) | ((v & ((1 << n) - 1)) << o) for v in vals]
         k += 1
